@@ -349,7 +349,10 @@ def shrink(
             to_remove_index = np.random.choice(degrees_min)
         elif node_select == "weight":
             weights = np.array([w[degrees[n][0]] for n in degrees_min])
-            to_remove_index = np.random.choice(np.where(weights == weights.min())[0])
+            # index into ``degrees`` of a minimum-weight node among the minimum-degree nodes
+            to_remove_index = degrees_min[
+                np.random.choice(np.where(weights == weights.min())[0])
+            ]
         else:
             raise ValueError("Node selection method not recognized")
 
